@@ -15,7 +15,15 @@ CHECKS = {
             "never fails; and again from any store left behind by earlier executions. " + CORR,
             "", "DESIGN.md 5/C01"),
     "C02": (TV, "Lean model + correspondence (proofs in progress)", CORR, "", "DESIGN.md 5/C02"),
-    "C03": (TV, "Lean model + correspondence (proofs in progress)", CORR, "", "DESIGN.md 5/C03"),
+    "C03": (PR, "Lean 4 theorems: backtracking_sound (induction over trees using C04/C05 + locality of widened projections), apply_with_options_sound for every option combination + correspondence",
+            "Machine-checked for the unary operation classes between iteration engines, every tree, every option "
+            "combination: backtrack_unary returns a well-formed relation that has (done) or yields under the operation "
+            "(not done) the content of the operation applied at the root; apply(...) with any preferred_engine/backtrack/"
+            "transfer/require options returns the columns and rows (values, multiplicity, order) of the plain application, "
+            "in the target's engine or (transfer=True only) the preferred one. Proof (partial): a Projection past a "
+            "Deduplication (finding F04) is excluded by hypothesis; joins and the SQL engine are validated by "
+            "correspondence + oracle. The proof attempt itself exposed three genuine defects, now repaired. " + CORR,
+            "", "DESIGN.md 5/C03"),
     "C04": (PR, "Lean 4 theorem commute_sound_partial over all 49 operation-class pairs + machine-checked counterexample for the one unsound pair + correspondence",
             "Machine-checked for every pair of unary operations with arbitrary parameters, every target column set and "
             "row list: a reported move (full or partial) yields the same rows in the same order and both reported "
